@@ -65,6 +65,12 @@ var witnesses = []witness{
 		roots: []string{"wa.yang"}, flags: pipeline.Flags{FakeRoot: true},
 		stage: "build", sig: regexp.MustCompile(`cannot use|mismatched types|redeclared`),
 	},
+	{
+		id:    "F29-split-files-unused-imports",
+		files: map[string]string{"wa.yang": mod("wa", "  container c { leaf l { type string; } }\n")},
+		roots: []string{"wa.yang"}, flags: pipeline.Flags{FakeRoot: true, SplitFiles: 1},
+		stage: "build-unused-imports", sig: regexp.MustCompile(`imported and not used`),
+	},
 }
 
 // probes: collision classes without a finding yet; run only by TestDevWitnesses.
@@ -108,6 +114,8 @@ func witnessFails(w witness, c *pipeline.GoCheck) (bool, string) {
 	}
 	out := ""
 	switch {
+	case c.UnusedImports != "":
+		out = "build-unused-imports: " + c.UnusedImports
 	case c.GenFailed():
 		out = "generate: " + c.Gen.Output
 	case c.BuildFailed:
